@@ -19,15 +19,21 @@ def main():
     from optsim.scenario import GLOBAL
     from optsim.specobs import observe, diff
     from optsim.tape import Tape
+    import warnings
     classes = {c.__name__: c for c in U.CUSTOM_CLASSES}
+    classes.update({'NTM': U.NTM, 'struct_time': U.STRUCTSEQ_TYPES[0]})
     for (cname, ns, style, rid) in blob['reg_log']:
         f = U.Funcs(classes[cname], rid, style)
-        optree.register_pytree_node(classes[cname], f.flatten, f.unflatten, namespace=GLOBAL if ns is None else ns)
+        with warnings.catch_warnings():
+            warnings.simplefilter('ignore')
+            optree.register_pytree_node(classes[cname], f.flatten, f.unflatten, namespace=GLOBAL if ns is None else ns)
     out = []
     for item in blob['items']:
         res = {'id': item['id']}
         ctx = gen.Ctx(kinds=item['kinds'], key_styles=item['key_styles'], custom_classes=[classes[n] for n in item['custom']])
         tree = gen.gen_tree(Tape(seed=item['tree_seed']), item['budget'], ctx)
+        if item.get('wrap_ntm'):
+            tree = [tree, U.NTM(U.Leaf(90001), [U.Leaf(90002)])]
         if item.get('gc'):
             gc.collect()
         def mode_cm(m):
